@@ -177,11 +177,20 @@ func TestVerifC10PartSet(t *testing.T) {
 		complete := ps2.IsComplete()
 		var out []byte
 		if complete && total > 0 {
-			var err error
-			out, err = io.ReadAll(ps2.GetReader())
-			if err != nil {
-				t.Fatal(err)
-			}
+			// a part set that calls itself complete must be readable: a panic here (a slot that is
+			// counted but empty) is an observation, not a harness failure
+			func() {
+				defer func() {
+					if rec := recover(); rec != nil {
+						out = []byte(fmt.Sprintf("PANIC while reassembling: %v", rec))
+					}
+				}()
+				var err error
+				out, err = io.ReadAll(ps2.GetReader())
+				if err != nil {
+					out = []byte("ERROR while reassembling: " + err.Error())
+				}
+			}()
 		}
 		for kd, c := range kinds {
 			cs.Count("op/"+kd, c)
